@@ -123,7 +123,7 @@ namespace cs
                     if (r.chance(1, 2))
                         p.add("mkx", {(long long)r.below(6), (long long)r.below(17), (long long)r.below(20)});
                     else
-                    p.add("dl", {(long long)r.below(3), (long long)r.below(3), (long long)r.below(9)});
+                    p.add("dl", {(long long)r.below(3), (long long)r.below(4), (long long)r.below(9)});
                     break;
                 default:
                     p.add("mk", {(long long)r.below(3), (long long)r.below(3), (long long)r.below(5),
